@@ -285,6 +285,8 @@ class RefDevice:
         key = conn.state["keys"][-1] if conn.state.get("keys") else None
         if self.version == 3 and key is None:
             return False
+        if conn.cid in self.pending_tail:
+            return False          # one half-sent packet at a time (a second one would corrupt the stream)
         pkt = self.wrap(conn, self.state_frame(ftype=acmodel.FT_REPORT), key)
         k = max(1, min(k, len(pkt) - 1))
         conn.send(pkt[:k], lat=MIN_LAT)
